@@ -83,6 +83,14 @@ type TypeContract struct {
 }
 
 var typeContracts []TypeContract
+
+// TableContract orders entries of a package-level string table.
+type TableContract struct {
+	Var   string
+	Order []string
+}
+
+var tableContracts []TableContract
 var globalInvariants []Clause // facts about package-level state: assumed at entry (to be re-established at exit by writers)
 var axioms []*Axiom
 
@@ -361,6 +369,22 @@ func parseContracts(path string, unit string) (map[string]*Contract, error) {
 		case "ghost":
 			// ghost name int
 			ghostInts[fields[1]] = true
+			continue
+		case "table":
+			// table <var> order a, b, c : in the package-level []string literal <var>, each listed name occurs exactly once
+			// and they occur in this relative order (a contract on a constant table: decided by reading the literal)
+			rest := strings.TrimSpace(strings.TrimPrefix(line, "table"))
+			parts := strings.SplitN(rest, " order ", 2)
+			if len(parts) != 2 {
+				return nil, fmt.Errorf("%s:%d: expected `table <var> order a, b, c`", path, ln)
+			}
+			tb := TableContract{Var: strings.TrimSpace(parts[0])}
+			for _, m := range strings.Split(parts[1], ",") {
+				if m = strings.TrimSpace(m); m != "" {
+					tb.Order = append(tb.Order, m)
+				}
+			}
+			tableContracts = append(tableContracts, tb)
 			continue
 		case "type":
 			// type T promotes M1, M2, ... : the methods that reach *T through embedding are exactly-at-most these
